@@ -767,12 +767,6 @@ unsafe impl Allocator for PageAlignedAllocator {
 
     #[inline]
     unsafe fn deallocate(&self, ptr: ptr::NonNull<u8>, layout: Layout) {
-        #[cfg(feature = "verif_hooks")]
-        verif::notify(verif::Event::Release {
-            addr: ptr.as_ptr() as usize,
-            size: layout.size(),
-        });
-
         let pagesize = *PAGESIZE;
 
         let ptr = ptr.as_ptr().offset(-(pagesize as isize));
@@ -791,6 +785,12 @@ unsafe impl Allocator for PageAlignedAllocator {
         dryoc_mprotect_readwrite(aft_protected_region)
             .map_err(|err| eprintln!("mprotect error = {:?}", err))
             .ok();
+
+        #[cfg(feature = "verif_hooks")]
+        verif::notify(verif::Event::Release {
+            addr: ptr.add(pagesize) as usize,
+            size: layout.size(),
+        });
 
         #[cfg(unix)]
         {
